@@ -19,6 +19,8 @@ pub struct State {
     pub r1: R1,
     pub dev: u8,
     pub hist: Vec<u16>,
+    /// the state holds (or held) a non-zero entry without PRESENT: outside the quantified domain, reduced oracle
+    pub ood: bool,
 }
 impl State {
     fn key(&self) -> u128 {
@@ -27,6 +29,7 @@ impl State {
         self.tables.hash(&mut h1);
         self.free.hash(&mut h1);
         self.dev.hash(&mut h1);
+        self.ood.hash(&mut h1);
         let a = h1.finish();
         let mut h2 = DefaultHasher::new();
         0x9e37_79b9u32.hash(&mut h2);
@@ -128,7 +131,7 @@ impl Engine {
         }
         self.cur_tables = 1 << L4_FRAME;
         let free: Vec<u16> = (0..24u16).filter(|&f| f as usize != L4_FRAME).collect();
-        State { ents, tables: 1 << L4_FRAME, free, r1: R1::default(), dev: 0, hist: vec![] }
+        State { ents, tables: 1 << L4_FRAME, free, r1: R1::default(), dev: 0, hist: vec![], ood: false }
     }
 
     fn restore(&mut self, st: &State) {
@@ -167,7 +170,7 @@ impl Engine {
                 }
             }
         }
-        State { ents, tables, free, r1, dev, hist }
+        State { ents, tables, free, r1, dev, hist, ood: false }
     }
 
     /// R1 along the walk of a page: chars for levels 4..leaf level: T table, E empty, L leaf; stops after the first non-T
@@ -285,6 +288,9 @@ impl Engine {
     /// One transition. Returns the successor state if the transition was clean.
     pub fn step(&mut self, st: &State, ai: usize, tree_before: &Tree) -> Option<State> {
         let (act, cost) = self.acts[ai];
+        if st.ood || is_ood_action(&act) {
+            return self.step_ood(st, ai, tree_before);
+        }
         let op = self.op_name(&act);
         let mut ast = AllocState { free: st.free.clone() };
         let out = self.run_call(&act, &mut ast);
@@ -344,6 +350,110 @@ impl Engine {
         let mut hist = st.hist.clone();
         hist.push(ai as u16);
         Some(self.snapshot(r1, ast.free, st.dev + cost, hist))
+    }
+
+
+    /// Transition in / into a state outside the quantified domain (some non-zero entry lacks PRESENT). Only the
+    /// representation-level clauses are checked: "unused/empty" means all-zero (C08), so
+    ///  * no frame is requested when every entry on the walk is non-zero (C09),
+    ///  * clean-up releases only tables that are all-zero and unlinked at that moment (C10, checked in the callback),
+    ///  * no stray access, nobody but clean-up releases, (structural) mappings unchanged by clean-up.
+    fn step_ood(&mut self, st: &State, ai: usize, before: &Tree) -> Option<State> {
+        let (act, cost) = self.acts[ai];
+        if matches!(self.cfg.imp, Impl::Recursive(_)) && matches!(act, Act::SetP { flags, .. } if flags == PARENT_OOD) {
+            return None; // a non-present parent link makes the recursive window itself fault on real hardware
+        }
+        if matches!(self.cfg.imp, Impl::Recursive(_)) && st.ood && before.link_flags.values().any(|f| f & P == 0) {
+            return None;
+        }
+        let before_s: Tree = if before.structural { before.clone() } else { walk_all_mode(sim(), self.skip, true) };
+        let op = self.op_name(&act);
+        // expected allocation requests from raw memory: tables are missing from the first all-zero slot downwards
+        let mut exp_req = 0u32;
+        let is_map = matches!(act, Act::Map { .. } | Act::Ident { .. });
+        if is_map {
+            let (sz, va) = act_page(&act, &self.al).unwrap();
+            let sched = match act { Act::Map { sched, .. } | Act::Ident { sched, .. } => sched, _ => 0 };
+            let ll = leaf_level(sz);
+            let mut missing = false;
+            for level in ((ll + 1)..=4).rev() {
+                let key = (level - 1, base_of(va, table_span(level - 1)));
+                let huge_here = level <= 3 && before_s.leaves.contains_key(&(level - 1, base_of(va, size_of(level - 1))));
+                if !missing && huge_here {
+                    break;
+                }
+                if missing || !before_s.tables.contains_key(&key) {
+                    missing = true;
+                    exp_req += 1;
+                    let fail = match sched { 0 => false, 4 => true, k => exp_req == k as u32 };
+                    if fail {
+                        break;
+                    }
+                }
+            }
+        }
+        let mut ast = AllocState { free: st.free.clone() };
+        let out = self.run_call(&act, &mut ast);
+        for p in PROPS {
+            self.reps.get_mut(p).unwrap().transitions += 1;
+        }
+        self.reps.get_mut("C09").unwrap().bucket("transition-outside-quantified-domain(reduced oracle)");
+        let s = sim();
+        let mut clean = true;
+        if s.nstray > 0 {
+            let x = s.strays[0];
+            let what = ["non-table-frame-of-the-window", "physical-memory-outside-the-page-tables", "not-present-window-address", "wild-address"][x.kind as usize];
+            self.viol("C09", &format!("{}|non-present-entries|{}-of-{}", op, if x.write { "write" } else { "read" }, what), &st.hist, Some(ai), &format!("host {:#x} phys {:#x} frame {}", x.addr, x.phys, x.frame));
+            clean = false;
+        }
+        if s.fatal {
+            return None;
+        }
+        let out = out?;
+        // a huge-page call on a slot that holds a page table must not succeed (same clause and signature as in-domain)
+        if let Some((sz, va)) = act_page(&act, &self.al) {
+            if !matches!(act, Act::SetP { .. }) {
+                let r1s = R1 { tables: before_s.tables.clone(), leaves: before_s.leaves.clone() };
+                let blocked = ((leaf_level(sz) + 1)..=4).rev().any(|l| !matches!(r1s.slot(va, l), Slot::Table(_)));
+                if !blocked && matches!(r1s.slot(va, leaf_level(sz)), Slot::Table(_)) && out.oc == Oc::Ok {
+                    let sit = Self::situation(&r1s, sz, va);
+                    self.viol("C02", &format!("{}|walk={}|reports-success-for-a-mapping-of-a-size-that-does-not-exist", op, sit), &st.hist, Some(ai), "slot holds a page table, call returned Ok");
+                    return None;
+                }
+            }
+        }
+        if is_map && out.requests != exp_req {
+            self.viol("C09", &format!("{}|non-present-entries|allocation-requests={}|expected={}-(every-entry-on-the-walk-that-is-non-zero-counts-as-an-existing-table)", op, out.requests, exp_req), &st.hist, Some(ai), "");
+            clean = false;
+        }
+        if !is_map && out.requests != 0 {
+            self.viol("C09", &format!("{}|non-present-entries|requests-frames", op), &st.hist, Some(ai), "");
+            clean = false;
+        }
+        let is_clean_op = matches!(act, Act::CleanAll | Act::CleanRange { .. });
+        if !is_clean_op && !out.freed.is_empty() {
+            self.viol("C09", &format!("{}|releases-frames", op), &st.hist, Some(ai), "");
+            clean = false;
+        }
+        for p in &out.dealloc_problems {
+            let kind = p.split(' ').take(6).collect::<Vec<_>>().join("-").replace(|c: char| c.is_ascii_digit(), "#");
+            self.viol("C10", &format!("{}|non-present-entries|{}", op, kind), &st.hist, Some(ai), p);
+            clean = false;
+        }
+        let after = walk_all_mode(s, self.skip, true);
+        if is_clean_op && after.leaves != before_s.leaves {
+            self.viol("C10", &format!("{}|non-present-entries|entries-changed", op), &st.hist, Some(ai), "");
+            clean = false;
+        }
+        if !clean {
+            return None;
+        }
+        let r1 = R1 { tables: after.tables.clone(), leaves: after.leaves.clone() };
+        let mut hist = st.hist.clone();
+        hist.push(ai as u16);
+        let mut ns = self.snapshot(r1, ast.free, st.dev + cost, hist);
+        ns.ood = true;
+        Some(ns)
     }
 
     fn check_op(&mut self, st: &State, ai: usize, op: &str, act: &Act, out: &Outcome, tree: &Tree, r1: &mut R1, before: &Tree) -> bool {
@@ -606,6 +716,9 @@ impl Engine {
 
     /// per-state oracle: the implementation's translate functions against R1 on the probe addresses
     pub fn check_state(&mut self, st: &State, full: bool) {
+        if st.ood {
+            return; // outside the quantified domain: translation semantics are not specified
+        }
         let cfg = self.cfg.clone();
         let probes: Vec<u64> = if full { self.al.probes.clone() } else { self.al.probes_small.clone() };
         let pages = self.al.pages.clone();
@@ -704,7 +817,7 @@ impl Engine {
             let mut next: Vec<State> = Vec::new();
             for (si, st) in frontier.iter().enumerate() {
                 self.restore(st);
-                let tree_before = walk_all(sim(), self.skip);
+                let tree_before = walk_all_mode(sim(), self.skip, st.ood);
                 self.check_state(st, depth <= 1);
                 let mut dirty = false;
                 for ai in 0..self.acts.len() {
@@ -816,7 +929,7 @@ pub fn replay(case: &str) -> Vec<Rep> {
     e.restore(&st);
     for (n, &ai) in idx.iter().enumerate() {
         e.restore(&st);
-        let tb = walk_all(sim(), e.skip);
+        let tb = walk_all_mode(sim(), e.skip, st.ood);
         e.check_state(&st, true);
         match e.step(&st, ai, &tb) {
             Some(ns) => st = ns,
